@@ -100,7 +100,7 @@ fn gen_annotations(rng: &mut Rng, want_tz: bool) -> String {
 }
 
 /// A grammar-directed (usually valid) string of one of the syntactic families.
-fn gen_valid(rng: &mut Rng) -> String {
+pub fn gen_valid(rng: &mut Rng) -> String {
     match rng.below(10) {
         0 => format!("{}{}", gen_date_text(rng), gen_annotations(rng, false)),
         1..=4 => {
@@ -131,7 +131,7 @@ fn gen_valid(rng: &mut Rng) -> String {
     }
 }
 
-fn gen_duration_text(rng: &mut Rng) -> String {
+pub fn gen_duration_text(rng: &mut Rng) -> String {
     let mut s = String::new();
     if rng.chance(1, 3) {
         s.push(if rng.bool() { '-' } else { '+' });
